@@ -153,6 +153,7 @@ type FuncCtx struct {
 	freshRefs map[string]bool
 	guardMode bool
 	recSelf   string
+	idxTerms  map[string]map[string]bool
 	cellPrefixes map[string]bool
 	havocArgTypes []string // pointee type keys of pointer arguments of the call being havocked
 	boxed     map[string]string // interface term | dynamic type -> payload term (for unbox(box(x)) = x at generation time)
@@ -170,6 +171,7 @@ type State struct {
 	pendingHavoc []havocRec
 	volatile     []func(string) bool
 	volatileAll  bool
+	private      map[string][]string // type key -> references allocated by this activation and not yet published
 	cases        []string // path conditions of the states joined at the most recent merge (exhaustive under pc)
 }
 
@@ -179,6 +181,12 @@ func (s *State) clone() *State {
 	n.volatile = append([]func(string) bool(nil), s.volatile...)
 	n.volatileAll = s.volatileAll
 	n.cases = s.cases
+	if s.private != nil {
+		n.private = make(map[string][]string, len(s.private))
+		for k, v := range s.private {
+			n.private[k] = append([]string(nil), v...)
+		}
+	}
 	n.locals = make(map[localKey]Value, len(s.locals))
 	for k, v := range s.locals {
 		n.locals[k] = v
@@ -701,7 +709,51 @@ func (fc *FuncCtx) setComp(st *State, key, sort, term string) {
 
 // leafSortOf: sort used to store a leaf of Go type t.
 // loadAt loads a value of type t from component family `prefix` at index idx, path `path`.
+func (fc *FuncCtx) noteIdx(key string, idx []string) {
+	if len(idx) == 0 || fc.u.quant > 0 {
+		return
+	}
+	if fc.idxTerms == nil {
+		fc.idxTerms = map[string]map[string]bool{}
+	}
+	m := fc.idxTerms[key]
+	if m == nil {
+		m = map[string]bool{}
+		fc.idxTerms[key] = m
+	}
+	if len(m) < 64 {
+		m[idx[0]] = true
+	}
+}
+
+// idxTermsFor: first-index terms seen so far for the component family of key (same object family).
+func (fc *FuncCtx) idxTermsFor(key string) []string {
+	fam := key
+	if i := strings.Index(key, "."); i >= 0 && strings.HasPrefix(key, "O!") {
+		// all fields of one object type are indexed by the same references
+		if j := strings.LastIndex(key[:len(key)], "."); j > 0 {
+			fam = key[:strings.Index(key[2:], ".")+2]
+			_ = j
+		}
+	}
+	seen := map[string]bool{}
+	var out []string
+	for k, m := range fc.idxTerms {
+		if k == key || (strings.HasPrefix(key, "O!") && strings.HasPrefix(k, fam)) || (strings.HasPrefix(key, "E!") && strings.HasPrefix(k, strings.SplitN(key, ".", 2)[0])) {
+			for t := range m {
+				if !seen[t] {
+					seen[t] = true
+					out = append(out, t)
+				}
+			}
+		}
+	}
+	sort.Strings(out)
+	return out
+}
+
 func (fc *FuncCtx) loadAt(st *State, prefix string, idx, idxSorts []string, path string, t types.Type) Value {
+	fc.noteIdx(prefix+path, idx)
 	switch u := t.Underlying().(type) {
 	case *types.Slice:
 		if fc.bytesStr && isByteSlice(t) {
@@ -1145,4 +1197,39 @@ func (fc *FuncCtx) refAxiom(st *State, comp string, nidx int, idxSorts []string)
 		body = "(forall ((r Int) (i " + idxSorts[1] + ")) (! (and (<= 0 (select (select " + comp + " r) i)) (<= (select (select " + comp + " r) i) " + a + ")) :pattern ((select (select " + comp + " r) i))))"
 	}
 	fc.u.emit("(assert " + tImp(st.pc, body) + ")")
+}
+
+// notePrivate records a reference allocated by this activation for an object of type t.
+func (fc *FuncCtx) notePrivate(st *State, t types.Type, ref string) {
+	if st.private == nil {
+		st.private = map[string][]string{}
+	}
+	k := typeKey(t)
+	st.private[k] = append(st.private[k], ref)
+}
+
+// publish: a pointer to an object of type t leaves the activation's private data (stored into the heap, passed to
+// a call, sent, captured): from now on every object of that type allocated so far counts as published (type-based,
+// conservative).
+func (fc *FuncCtx) publish(st *State, t types.Type) {
+	if st.private == nil {
+		return
+	}
+	switch u := t.Underlying().(type) {
+	case *types.Pointer:
+		delete(st.private, typeKey(u.Elem()))
+	case *types.Interface:
+		// an interface value may hold a pointer to anything
+		st.private = nil
+	case *types.Slice:
+		fc.publish(st, u.Elem())
+	case *types.Map:
+		fc.publish(st, u.Key())
+		fc.publish(st, u.Elem())
+	case *types.Chan:
+		// the channel itself is not a tracked object; values sent later are published at the send
+	case *types.Basic:
+	case *types.Signature, *types.Struct, *types.Array:
+		st.private = nil
+	}
 }
